@@ -835,6 +835,10 @@ pub struct Shadow {
     pub allow: BTreeMap<String, Allow>,
     /// permissions as admins last set them
     pub perms: BTreeMap<String, Perm>,
+    /// the admin set as requested at instantiation and by accepted, authorised UpdateAdmins calls
+    /// (None until a monitor records the instantiation), and whether it may still change
+    pub admins: Option<Vec<String>>,
+    pub mutable: bool,
 }
 
 impl Shadow {
